@@ -199,20 +199,6 @@ example : (replTournament (fun x : Int => x) true ⟨⟨[[5, 3, 9]], [3]⟩, ⟨
 section tune
 variable {P : Type} [ProbOps P]
 
-inductive SearchKind | base | src | ga
-deriving Repr, DecidableEq
-
-/-- the three `tune_parameters` -/
-def tune (kind : SearchKind) (lnF cubeF : Nat → Nat) (esLayers term0 dsize : Nat) (u : Env P) : Env P :=
-  match kind with
-  | .base => tuneBase (Env.dflt esLayers) term0 u
-  | .src  => tuneSrc lnF cubeF (Env.dflt esLayers) term0 dsize u
-  | .ga   => tuneGa (Env.dflt esLayers) term0 u
-
-def strategyFloor : SearchKind → Nat
-  | .ga => 10
-  | _ => 0
-
 /-- after tuning every parameter the user left open has a value
     (`code_length = 1` is rejected by `is_valid` already before tuning) -/
 theorem tune_defined (laws : ProbLaws P) (kind : SearchKind) (lnF cubeF : Nat → Nat)
